@@ -471,6 +471,8 @@ class FileScanHelper:
                 level_list = []
                 plugins_by_fix_level[pair_fix_level] = level_list
             level_list.append(pair_plugin_id)
+        if not plugins_by_fix_level:
+            return False
         minimum_fix_level = min(plugins_by_fix_level.keys())
         did_anything_get_fixed = False
         keep_processing = True
